@@ -789,47 +789,90 @@ fn run_jubjub_extras(ctx: &mut Ctx) {
     }
 }
 
+fn stage(s: &str) {
+    if std::env::var("C10_TRACE").is_ok() {
+        eprintln!("[h-c10] {s}");
+    }
+}
+
 pub fn run(ctx: &mut Ctx) {
+    stage("run_core::<BlsFq>(ctx);");
     run_core::<BlsFq>(ctx);
+    stage("run_core::<BlsFp>(ctx);");
     run_core::<BlsFp>(ctx);
+    stage("run_core::<JubjubFr>(ctx);");
     run_core::<JubjubFr>(ctx);
+    stage("run_core::<C25519Fp>(ctx);");
     run_core::<C25519Fp>(ctx);
+    stage("run_core::<C25519Scalar>(ctx);");
     run_core::<C25519Scalar>(ctx);
+    stage("run_core::<K256Fp>(ctx);");
     run_core::<K256Fp>(ctx);
+    stage("run_core::<K256Fq>(ctx);");
     run_core::<K256Fq>(ctx);
+    stage("run_core::<Bn256Fq>(ctx);");
     run_core::<Bn256Fq>(ctx);
+    stage("run_core::<Bn256Fr>(ctx);");
     run_core::<Bn256Fr>(ctx);
 
+    stage("run_legendre::<BlsFq>(ctx);");
     run_legendre::<BlsFq>(ctx);
+    stage("run_legendre::<BlsFp>(ctx);");
     run_legendre::<BlsFp>(ctx);
+    stage("run_legendre::<C25519Fp>(ctx);");
     run_legendre::<C25519Fp>(ctx);
+    stage("run_legendre::<Bn256Fq>(ctx);");
     run_legendre::<Bn256Fq>(ctx);
+    stage("run_legendre::<Bn256Fr>(ctx);");
     run_legendre::<Bn256Fr>(ctx);
 
+    stage("run_uniform::<64, BlsFq>(ctx);");
     run_uniform::<64, BlsFq>(ctx);
+    stage("run_uniform::<64, C25519Fp>(ctx);");
     run_uniform::<64, C25519Fp>(ctx);
+    stage("run_uniform::<48, C25519Fp>(ctx);");
     run_uniform::<48, C25519Fp>(ctx);
+    stage("run_uniform::<64, C25519Scalar>(ctx);");
     run_uniform::<64, C25519Scalar>(ctx);
+    stage("run_uniform::<64, Bn256Fq>(ctx);");
     run_uniform::<64, Bn256Fq>(ctx);
+    stage("run_uniform::<48, Bn256Fq>(ctx);");
     run_uniform::<48, Bn256Fq>(ctx);
+    stage("run_uniform::<64, Bn256Fr>(ctx);");
     run_uniform::<64, Bn256Fr>(ctx);
+    stage("run_uniform::<48, Bn256Fr>(ctx);");
     run_uniform::<48, Bn256Fr>(ctx);
 
+    stage("run_serde_object::<BlsFq>(ctx);");
     run_serde_object::<BlsFq>(ctx);
+    stage("run_serde_object::<BlsFp>(ctx);");
     run_serde_object::<BlsFp>(ctx);
+    stage("run_serde_object::<C25519Fp>(ctx);");
     run_serde_object::<C25519Fp>(ctx);
+    stage("run_serde_object::<Bn256Fq>(ctx);");
     run_serde_object::<Bn256Fq>(ctx);
+    stage("run_serde_object::<Bn256Fr>(ctx);");
     run_serde_object::<Bn256Fr>(ctx);
 
+    stage("run_ord::<BlsFq>(ctx);");
     run_ord::<BlsFq>(ctx);
+    stage("run_ord::<BlsFp>(ctx);");
     run_ord::<BlsFp>(ctx);
+    stage("run_ord::<JubjubFr>(ctx);");
     run_ord::<JubjubFr>(ctx);
+    stage("run_ord::<C25519Fp>(ctx);");
     run_ord::<C25519Fp>(ctx);
+    stage("run_ord::<Bn256Fq>(ctx);");
     run_ord::<Bn256Fq>(ctx);
+    stage("run_ord::<Bn256Fr>(ctx);");
     run_ord::<Bn256Fr>(ctx);
 
+    stage("run_bls_extras(ctx);");
     run_bls_extras(ctx);
+    stage("run_c25519_extras(ctx);");
     run_c25519_extras(ctx);
+    stage("run_jubjub_extras(ctx);");
     run_jubjub_extras(ctx);
+    stage("probe_sum_ref(ctx);");
     probe_sum_ref(ctx);
 }
